@@ -27,6 +27,9 @@ META = {
                     "overlap inside nogil kernels is only stressed by the real-thread regime",
                     "diagnostic counters (intersection_data_points, tracing) are excluded by the property"],
 }
+META["rule"] += '; round 7: one cube object evaluated pooled, its data edited in place (same shapes, common values, entry counts), evaluated pooled again and compared with the serial evaluation of the data as they are now'
+for _t in META["require"]:
+    META["require"][_t] = list(META["require"][_t]) + ['edited_between:pooled_again_on_the_same_cube_object']
 
 STRATEGIES = [("uniform", 0.01), ("uniform", 0.05), ("uniform", 0.3), ("pct", 1), ("pct", 2), ("pct", 3)]
 
